@@ -1198,7 +1198,11 @@ func TestCheck(t *testing.T) {
 			"before new-branch logs at/above them; logs arrive in chain order with increasing Starknet numbers",
 		"the L1 chain does not change while the start-up catch-up scan runs; provider calls fail by returning an error (deadline "+
 			"expiry of a parked call is not scripted); ChainID mismatch (fatal exit) is out of scope",
-		"scheduler granularity = provider calls, subscription items/errors and timer expiries (quiescence points of the bubble); "+
+		"scheduler granularity = provider calls (incl. Unsubscribe of a failed subscription), subscription items/errors and timer "+
+			"expiries (quiescence points of the bubble); two cases of the client's main select are never made ready together (Go's "+
+			"pick would be an uncontrollable coin flip): item-vs-error races are reached through the equivalent 'item pushed while the "+
+			"client is between reading the error and finishing Unsubscribe' schedule, item/error-vs-poll-tick races only as the two "+
+			"sequential orders; "+
 			"finalised-height answers range over every integer between the last answer and the highest L1 block any remaining item could use",
 		fmt.Sprintf("poll interval %s, resubscribe delay %s (so a retry sleep may or may not swallow a poll tick); chunk sizes 1,2,1000; "+
 			"LatestHeight = highest log block + {0,1}; previous-run head = none or any history log", pollInterval, resubDelay))
